@@ -5,6 +5,7 @@ package main
 import (
 	"fmt"
 	"go/ast"
+	"go/printer"
 	"go/token"
 	"go/types"
 	"os"
@@ -20,15 +21,16 @@ import (
 const modPath = "github.com/craterdog/go-collection-framework/v4"
 
 type Ctx struct {
-	Root   string // module directory (…/v4)
-	Fset   *token.FileSet
-	Pkgs   map[string]*packages.Package // by short role: agent, collection, cdcn, module
-	All    []*packages.Package
-	Prog   *ssa.Program
-	SSA    map[string]*ssa.Package
-	Tier   string
-	NFiles int
-	NFuncs int
+	Root        string // module directory (…/v4)
+	Fset        *token.FileSet
+	Pkgs        map[string]*packages.Package // by short role: agent, collection, cdcn, module
+	All         []*packages.Package
+	Prog        *ssa.Program
+	SSA         map[string]*ssa.Package
+	Tier        string
+	NFiles      int
+	NFuncs      int
+	NNormalised int // statements brought into the normal spelling (see normalise.go)
 
 	decls map[*types.Func]*ast.FuncDecl
 	cache map[string]any
@@ -121,6 +123,19 @@ func loadRepo(root string, tags string, tier string) (*Ctx, error) {
 	}
 	prog.Build()
 	c.Prog = prog
+	c.NNormalised = normaliseAST(c)
+	if want := os.Getenv("VCHECK_DUMP_FUNC"); want != "" {
+		for _, p := range c.All {
+			for _, f := range p.Syntax {
+				for _, d := range f.Decls {
+					if fd, ok := d.(*ast.FuncDecl); ok && fd.Name.Name == want {
+						printer.Fprint(os.Stderr, c.Fset, fd)
+						fmt.Fprintln(os.Stderr)
+					}
+				}
+			}
+		}
+	}
 	return c, nil
 }
 
